@@ -286,7 +286,9 @@ class FX:
     def gname(s,g):
         return cname(g[1:].strip('"'))
 
+RENAME={'__assert_fail':'irc_c_assert_fail'}   # CBMC intercepts __assert_fail and insists on string literals
 def cname(n):
+    if n in RENAME: return RENAME[n]
     if re.match(r'^[A-Za-z_][A-Za-z0-9_]*$',n): return n
     return 'g_'+mangle(n)
 
@@ -821,7 +823,7 @@ class Trans:
         if name.startswith('llvm.prefetch') or name.startswith('llvm.invariant.end'): return []
         if name.startswith('llvm.invariant.start'):
             if dst is None: return []
-            return setv('((u8*)0)')
+            return setv('0')
         raise Err('intrinsic '+name)
     def ovneed(s,sg,o,w,rt):
         s.ovs=getattr(s,'ovs',{}); s.ovs[(sg,o,w)]=rt; return []
@@ -863,6 +865,11 @@ static inline u64 irc_pdiff(u8* p, u8* q){ return __CPROVER_same_object(p,q) ? (
 static inline int irc_plt(u8* p, u8* q){ return (u64)p < (u64)q; }
 static inline u64 irc_pdiff(u8* p, u8* q){ return (u64)p - (u64)q; }
 #endif
+/* allocation meter (C10): every operator new request is recorded */
+#ifndef IRC_NATIVE
+static u64 irc_alloc_max, irc_alloc_total; static u32 irc_alloc_n;
+#define IRC_ALLOC_METER(n) do{ u64 n_=(n); if(n_>irc_alloc_max) irc_alloc_max=n_; irc_alloc_total+=n_; irc_alloc_n++; }while(0)
+#endif
 static inline int irc_isnan(double d){ return d!=d; }
 static inline double irc_fabs(double d){ return d<0?-d:(d==0?0.0:d); }
 static inline u8* irc_alloca(u64 n){ u8* p = malloc(n); __CPROVER_assume(p!=0); return p; }
@@ -896,19 +903,22 @@ static inline u64 irc_fshr(u64 a,u64 b,u64 c,int w){ c%=w; if(c==0) return b; re
 LIBC_MAP={'memcmp':'memcmp((const void*)%s,(const void*)%s,%s)','strlen':'strlen((const char*)%s)','memchr':'irc_memchr((u8*)%s,(int)%s,%s)','bcmp':'memcmp((const void*)%s,(const void*)%s,%s)'}
 RUNTIME_MODELS={
  '__cxa_atexit':'return 0;',
+ 'localeconv':'static u8 irc_dp[2] = {46, 0}; static RETBASE irc_lc; irc_lc.f0 = irc_dp; return &irc_lc;',   # "C" locale: decimal_point "."; other lconv fields are not read by jsoncons
+ '__assert_fail':'IRC_ASSERT(0,"C assert() failed in the code under test"); __CPROVER_assume(0);',
  '__cxa_guard_acquire':'return *(u8*)a0 == 0;',
  '__cxa_guard_release':'*(u8*)a0 = 1;',
  '__cxa_guard_abort':'',
  '_ZNSt3_V215system_categoryEv':'static u64 irc_syscat[4]; return (RET)irc_syscat;',
  '_ZNSt3_V216generic_categoryEv':'static u64 irc_gencat[4]; return (RET)irc_gencat;',
- '_Znwm':'u8* p = malloc(a0 ? a0 : 1); __CPROVER_assume(p != 0); return (RET)p;',
- '_Znam':'u8* p = malloc(a0 ? a0 : 1); __CPROVER_assume(p != 0); return (RET)p;',
+ '_Znwm':'IRC_ALLOC_METER(a0); u8* p = malloc(a0 ? a0 : 1); __CPROVER_assume(p != 0); return (RET)p;',
+ '_Znam':'IRC_ALLOC_METER(a0); u8* p = malloc(a0 ? a0 : 1); __CPROVER_assume(p != 0); return (RET)p;',
  '_ZdlPv':'',
  '_ZdaPv':'',
  '_ZdlPvm':'',
 }
-def emit(m,entries,stubs,out,protos=None):
-    models_used=[]
+def emit(m,entries,stubs,out,protos=None,trap=None):
+    models_used=[]; trapped=[]
+    trap_re=re.compile(trap) if trap else None
     tr=Trans(m)
     # closure of needed functions
     done={}; work=list(entries); order=[]
@@ -918,6 +928,10 @@ def emit(m,entries,stubs,out,protos=None):
         if n in done or n in stubs: continue
         if n in m.funcs:
             tr.need=set()
+            if trap_re and n not in entries and trap_re.search(n):
+                # CUT: the function is replaced by an assertion (reaching it is reported, never ignored); used for container growth paths outside a kernel's bound
+                f=m.funcs[n]; sg=tr.sig(n,f.ret,[p[0] for p in f.params],['a%d'%i for i in range(len(f.params))],getattr(f,'va',False))
+                done[n]=sg+' { IRC_ASSERT(0,"cut: growth path outside the kernel bound reached ('+n[:60]+')"); __CPROVER_assume(0); }'; order.append(n); trapped.append(n); continue
             done[n]=tr.func(m.funcs[n]); order.append(n)
             for x in tr.need:
                 if x not in done: work.append(x)
@@ -997,7 +1011,7 @@ def emit(m,entries,stubs,out,protos=None):
             if n in RUNTIME_MODELS:
                 # C++ runtime symbols modelled by contract inside the generated C (CBMC build only; native builds link the real runtime)
                 sg=tr.sig(n,ft.ret,ft.args,['a%d'%i for i in range(len(ft.args))],ft.va)
-                o.append('#ifdef IRC_NATIVE\nextern '+tr.sig(n,ft.ret,ft.args,None,ft.va)+';\n#else\n'+sg+' { '+RUNTIME_MODELS[n].replace('RET',m.ct(ft.ret))+' }\n#endif')
+                o.append('#ifdef IRC_NATIVE\n'+('#define %s %s\n'%(RENAME[n],n) if n in RENAME else '')+'extern '+tr.sig(n,ft.ret,ft.args,None,ft.va)+';\n#else\n'+sg+' { '+RUNTIME_MODELS[n].replace('RETBASE',m.ct(ft.ret).rstrip('*').strip()).replace('RET',m.ct(ft.ret))+' }\n#endif')
                 models_used.append(n)
                 continue
             o.append('extern '+tr.sig(n,ft.ret,ft.args,None,ft.va)+';')
@@ -1025,7 +1039,7 @@ def emit(m,entries,stubs,out,protos=None):
     return dict(entries=list(entries),
                 functions=sorted('%s (%d IR lines)'%(n,len(m.funcs[n].lines)) for n in order if n in m.funcs),
                 externs=sorted(n for n in done if n not in m.funcs and n not in m.globals and not n.startswith('llvm.')),
-                stubbed=sorted(stubs), runtime_models=models_used)
+                stubbed=sorted(stubs), runtime_models=models_used, trapped=sorted(trapped))
 
 def ginit(tr,t,init):
     m=tr.m
@@ -1062,7 +1076,7 @@ None_fx=_NF()
 
 if __name__=='__main__':
     src,dst=sys.argv[1],sys.argv[2]
-    entries=[]; stubs=set(); prefix=None; infop=None; protos=None
+    entries=[]; stubs=set(); prefix=None; infop=None; protos=None; trap=None
     a=sys.argv[3:]
     while a:
         if a[0]=='--entry': entries=a[1].split(','); a=a[2:]
@@ -1070,9 +1084,10 @@ if __name__=='__main__':
         elif a[0]=='--entry-prefix': prefix=a[1]; a=a[2:]
         elif a[0]=='--info': infop=a[1]; a=a[2:]
         elif a[0]=='--protos': protos=a[1]; a=a[2:]
+        elif a[0]=='--trap': trap=a[1]; a=a[2:]
         else: raise SystemExit('arg '+a[0])
     m=parse_module(open(src).read())
     if prefix: entries+= [n for n in m.funcs if n.startswith(prefix)]
-    info=emit(m,entries,stubs,dst,protos)
+    info=emit(m,entries,stubs,dst,protos,trap)
     if infop:
         import json; json.dump(info,open(infop,'w'),indent=1)
